@@ -357,10 +357,35 @@ Definition ext_oer (t : ety) (v : eval) : option (list Z) :=
   | _, _ => None
   end.
 
+(* oer_fetch_length: short form, or long form with any number of leading zero
+   octets (even nothing but zeros: length 0), at most sizeof(size_t) significant
+   octets and a value up to RSIZE_MAX *)
+Fixpoint drop_zeros (bs : list Z) : list Z :=
+  match bs with
+  | b :: tl => if b =? 0 then drop_zeros tl else bs
+  | [] => []
+  end.
+
+Definition rsize_max : Z := 9223372036854775807.
+
+Definition oer_fetch_length (bs : list Z) : option (Z * list Z) :=
+  match bs with
+  | [] => None
+  | b :: r =>
+      if b <? 128 then Some (b, r)
+      else match take (b - 128) r with
+           | Some (os, r') =>
+               if 8 <? zlen (drop_zeros os) then None
+               else if rsize_max <? be_val os then None
+               else Some (be_val os, r')
+           | None => None
+           end
+  end.
+
 (* oer_open_type_get: the contents are handed to the member decoder; what it leaves
    inside the container is ignored *)
 Definition oer_open_get (t : ty) (bs : list Z) : option (val * list Z) :=
-  match oer_get_length bs with
+  match oer_fetch_length bs with
   | Some (n, r) =>
       match take n r with
       | Some (c, r') => match oer_dec t c with Some (v, _) => Some (v, r') | None => None end
@@ -371,7 +396,7 @@ Definition oer_open_get (t : ty) (bs : list Z) : option (val * list Z) :=
 
 (* oer_open_type_skip returns the size of the length determinant only *)
 Definition oer_open_skip (std : bool) (bs : list Z) : option (list Z) :=
-  match oer_get_length bs with
+  match oer_fetch_length bs with
   | Some (n, r) =>
       if std then match take n r with Some (_, r') => Some r' | None => None end
       else Some r
@@ -389,7 +414,7 @@ Definition ext_oer_dec (std : bool) (t : ety) (bs : list Z) : option (eval * lis
               match dec_members_pres oer_dec root pres r0 with
               | Some (rvs, r1) =>
                   if e then
-                    match oer_get_length r1 with
+                    match oer_fetch_length r1 with
                     | Some (len, r2) =>
                         match take len r2 with
                         | Some (u :: bmo, r3) =>
